@@ -32,7 +32,7 @@ DOC = {"CONVERGENCE: NORM_OF_PROJECTED_GRADIENT_<=_PGTOL",
        "STOP: TOTAL NO. of f AND g EVALUATIONS EXCEEDS LIMIT", "STOP: USER CALLBACK",
        "ABNORMAL_TERMINATION_IN_LNSRCH"}
 PROBS = ("rosen", "exp50", "exp5", "qp", "qpdeg")
-GT = (1e-8, 1e3, "callable")
+GT = (1e-8, 1e3, "callable", "pg0")      # pg0: exactly the projected-gradient norm at x0
 FT = (None, -1e9, "reach", "callable")
 CB = (None, "never", 2)
 
@@ -69,6 +69,11 @@ def cases(tier, variants):
                     range(4), range(3)):
                 yield dict(part="lat", var=v, prob=pn, ck=None, maxiter=mi, maxfun=mf,
                            maxls=ml, ftol=ft, gtol=gi, ftarget=ti, cb=ci)
+            # tolerance exactly equal to the projected-gradient norm of the start (boundary
+            # of the comparison: the run must stop at once with the PGTOL message)
+            for mi, mf, ti in itertools.product((0, 2), (1, 100), (0, 1)):
+                yield dict(part="lat", var=v, prob=pn, ck=None, maxiter=mi, maxfun=mf,
+                           maxls=20, ftol=0.0, gtol=3, ftarget=ti, cb=0)
             # target already met at x0 (float and callable), every gtol letter
             for mi, mf, gi, ti in itertools.product((0, 2), (1, 100), range(3),
                                                     ("now", "nowcall")):
@@ -177,6 +182,12 @@ def run(case):
         x0 = np.array(ck.x, copy=True)
     gl = GT[case["gtol"]]
     gval = 1e-8 if gl == "callable" else gl
+    if gl == "pg0":
+        xs_ = np.clip(x0, lb, ub)
+        g0_ = np.asarray(g(xs_), float) if jmode == "callable" else None
+        if g0_ is None or not np.all(np.isfinite(g0_)):
+            return dict(viol=[], outcome="pg0_not_applicable", stats={"skipped": 1})
+        gval = gl = float(np.max(np.abs(np.clip(xs_ - g0_, lb, ub) - xs_)))
 
     def gcall():
         cnt["gt"] += 1
